@@ -61,6 +61,9 @@ def op_tm_pack(a):
 def op_tm_unpack(a):
     raw = unhx(a["raw"])
     t = PusTm.unpack(raw, a["ts_len"])
+    # (before pack(), which recomputes the stored checksum)
+    if t.crc16 is not None and bytes(t.crc16) != raw[t.packet_len - 2:t.packet_len]:
+        raise SelfCheckFailure("crc16 of the decoded packet is not the packet's own trailer")
     if bytes(t.pack()) != raw[:t.packet_len]:
         raise SelfCheckFailure("pack(unpack(b)) != b[:packet_len]")
     return _tm_fields(t)
